@@ -3882,6 +3882,7 @@ pub fn c11_notification_protocol(nd: &mut Nondet) {
     let mut requested_since_closed = false;
     let mut closing = false;              // the user asked to close the open stream and has not yet seen the closed event
     let mut lost = false;                 // the connection of the open stream went away and the closed event has not arrived yet
+    let mut poll_old_task = false;
 
     let steps = param("steps", 4);
     // `warm` leading steps are fixed: connect, the user asks for a stream, the remote answers our handshake, the remote opens
@@ -3971,6 +3972,9 @@ pub fn c11_notification_protocol(nd: &mut Nondet) {
             3 => {
                 let mut fut = Box::pin(handle.close_substream(peer));
                 match fut.as_mut().poll(&mut cx) { Poll::Ready(()) => { cover("c11.user.close"); if open { closing = true; } } Poll::Pending => { check("c11.command-channel-has-room", false); return; } }
+                drop(fut);
+                // in the forced prefix the old stream's task may or may not get to run before the remote comes back
+                if forced && !nd.bool("old_task_is_starved") { poll_old_task = true; }
             }
             4 => {
                 // the connection task answers the protocol's oldest substream request
@@ -4032,7 +4036,7 @@ pub fn c11_notification_protocol(nd: &mut Nondet) {
                 nk::Polled::Exited => { check("c11.protocol-keeps-serving", false); return; }
             }
         }
-        if settle { let _ = kernel.poll_tasks(&mut cx); }
+        if settle || poll_old_task { let _ = kernel.poll_tasks(&mut cx); poll_old_task = false; }
         let mut reads = 0;
         loop {
             reads += 1;
